@@ -75,7 +75,7 @@ async def history(sh: Shard, rig, r, regime, nev):
             for t in waiters:
                 await t
             await rig.quiesce(settle=0.25)
-            variant = r.choice(["ip", "port", "src-id", "dst-id", "both-ids-swapped"])
+            variant = r.choice(["ip", "port", "src-id", "dst-id", "both-ids-swapped", "src-id-case", "dst-id-case"])
             payload = r.choice([b"STATP\x01" + struct.pack(">H", r.randrange(300, 700)) + word(), b"RFERR", b"WCERR"])
             src_addr = rig.sim.addr
             s_id, d_id = SPA_ID, CLIENT_ID
@@ -87,6 +87,13 @@ async def history(sh: Shard, rig, r, regime, nev):
                 s_id = other_spa
             elif variant == "dst-id":
                 d_id = other_id
+            elif variant == "src-id-case":
+                # another pair: identifiers that differ from this connection's in letter case only
+                s_id = r.choice([SPA_ID.lower(), SPA_ID.swapcase(), SPA_ID[:1].lower() + SPA_ID[1:]])
+            elif variant == "dst-id-case":
+                d_id = r.choice([CLIENT_ID.upper(), CLIENT_ID.swapcase(), CLIENT_ID.lower()])
+                if d_id == CLIENT_ID:
+                    d_id = CLIENT_ID.swapcase()
             else:
                 s_id, d_id = CLIENT_ID, SPA_ID
             before_block = spa.struct.status_block
@@ -240,7 +247,32 @@ def shard(sh: Shard, seed, wseed, regime, nhist, nev):
                     switcher = asyncio.ensure_future(switch_loop())
                     sh.count("histories_with_profile_switches")
                 e0, d0, ev0 = len(rig.protocol.queue.events), len(w.net.dgrams), len(rig.events)
+                flood_acks = 0
+                if hi == 2 and regime in ("B", "J"):
+                    # a backlog: well over a thousand datagrams arrive within a second (a spa catching
+                    # up after an outage); the consumers need minutes - each must still leave the queue
+                    # exactly once, by a consumer that accepts it or as unhandled
+                    import struct as _st
+
+                    from vlib.rig import CLIENT_ID, SPA_ID
+
+                    nfl = r.choice([1100, 1300])
+                    for k in range(nfl):
+                        if k % 23 == 7:
+                            body = b"QQQQQ" + bytes([k % 256])
+                        else:
+                            body = b"STATP\x01" + _st.pack(">H", 300 + k % 400) + _st.pack(">H", 0x4000 + k)
+                            flood_acks += 1
+                        w.net.inject(frame(SPA_ID, CLIENT_ID, body), rig.sim.addr, rig.transport, delay=0.0005 * k)
+                    t_lim = w.now + 900
+                    await asyncio.sleep(1)
+                    while rig.protocol.queue.qsize() > 0 and w.now < t_lim:
+                        await asyncio.sleep(2)
+                    await rig.quiesce(settle=0.4, limit=60)
+                    sh.count("backlog_floods")
+                    sh.maximum("largest_backlog_drained", nfl)
                 exp_acks, exp_rferr = await history(sh, rig, r, regime, nev)
+                exp_acks += flood_acks
                 if switcher is not None:
                     switcher.cancel()
                 n = judge_queue(sh, rig, regime, e0, f"{seed}:{wseed}:{hi}")
@@ -278,7 +310,7 @@ def shard(sh: Shard, seed, wseed, regime, nhist, nev):
                     raise
         finally:
             w.close()
-    sh.sample({"regime": regime, "events_per_history": nev, "kinds": "statp|rferr|wcerr|orphan-reply|unknown|garbage|broken-frame|misaddressed(5 variants)|nested|hello|waiter|burst"})
+    sh.sample({"regime": regime, "events_per_history": nev, "kinds": "statp|rferr|wcerr|orphan-reply|unknown|garbage|broken-frame|misaddressed(7 variants)|nested|hello|waiter|burst"})
 
 
 def two_connections(sh: Shard, seed, idx):
@@ -369,14 +401,15 @@ def main(tier, seed):
     for h in ("GeckoUnhandledProtocolHandler", "GeckoPacketProtocolHandler", "GeckoAsyncPartialStatusBlockProtocolHandler", "GeckoRFErrProtocolHandler", "GeckoWatercareErrorHandler", "GeckoVersionProtocolHandler", "GeckoStatusBlockProtocolHandler"):
         run.need(h in hs, f"no pop by {h} observed")
     kinds = run.sets.get("arrival_kinds", set())
-    for v in ("ip", "port", "src-id", "dst-id", "both-ids-swapped"):
+    run.need(run.counters.get("backlog_floods", 0) >= 1, "no backlog of more than a thousand datagrams was driven")
+    for v in ("ip", "port", "src-id", "dst-id", "both-ids-swapped", "src-id-case", "dst-id-case"):
         run.need(f"misaddressed:{v}" in kinds, f"mis-addressed variant {v} not exercised")
     run.need(run.counters.get("unhandled_discards", 0) > 50 and run.counters.get("claimed_pops", 0) > 200, "too few pops observed")
     run.need(run.counters.get("histories_with_profile_switches", 0) > 10, "no history with timing-profile switches")
     run.need(run.counters.get("two_connection_rounds", 0) > 50, "two connections in one process hardly exercised")
     run.need(run.counters.get("histories_with_suspending_client_handler", 0) > 5, "no history with a suspending client handler")
     return run.finish(
-        rule="arrival histories on a real connected client mixing addressed partial updates, RFERR, WCERR, replies without a waiter, unknown verbs, unframed garbage, broken frames, nested frames, hello, five kinds of mis-addressed packets and bursts, with 0-2 waiters active, under regimes B/J/H and exact timer ties (T); one evaluation = one datagram that went through the receive queue (or one mis-addressed probe); distinct = distinct histories",
+        rule="arrival histories on a real connected client mixing addressed partial updates, RFERR, WCERR, replies without a waiter, unknown verbs, unframed garbage, broken frames, nested frames, hello, seven kinds of mis-addressed packets (incl. identifiers differing in letter case only) and bursts, with 0-2 waiters active, under regimes B/J/H and exact timer ties (T); one evaluation = one datagram that went through the receive queue (or one mis-addressed probe); distinct = distinct histories",
         assumptions=["'discarded as unhandled' is read as: popped by the unhandled consumer after the datagram stayed at the head for at least one polling interval", "head-residence bound 3 polls + injected lateness/stalls, judged under regimes B and J only", "malformed payloads of known verbs are not part of the workload (they end the consumer task; noted in DESIGN.md)"],
     )
 
